@@ -75,16 +75,26 @@ CHECKS = {
        "algebraic hypothesis; SIMD butterflies = reference by C08's execution tie.",
   design="4/C04, 10.2"),
  "C05": dict(
-  technique="Lean 4 theorems about the reconstruct schedule interpreter and the error-locator function + exhaustive erasure-set correspondence on small configurations",
-  text="Proof: C05_local / C05_linear / C05_scratch (fixed erasure set, arbitrary step lists), C05_present_untouched, "
-       "C05_data_only, C05_errLocs_fn / C05_reconSched_fn (locator table and schedule are functions of the erasure set, so "
-       "caching by the complete erasure set is sound), C05_reconstruct_local/chunking/linear. Tie: Reconstruct* of the real "
+  technique="Lean 4 theorem: the reconstruct schedule model restores every erased shard for every admissible shape and every erasure set (LCH decoder: FWHT locator, novel-basis formal derivative) + exhaustive erasure-set correspondence on small configurations",
+  text="Proof: C05_leo8_reconstruct_all / C05_leo16_reconstruct_all - for ALL 0<d, p with ceilPow2(p)+d <= 256 (65536), all "
+       "well-formed data, ALL erasure sets of at most p of the d+p shards, both modes, whatever sits in the missing slots: the "
+       "executable model of reconstruct (error-locator table by truncated fast Walsh-Hadamard transforms in Leopard's folded "
+       "arithmetic mod 2^k-1, locator-weighted load, truncated radix-4 inverse FFT, the in-place formal-derivative xor loop, "
+       "truncated radix-4 FFT, division by the locator derivative) returns exactly the original data shard / the parity shard "
+       "Encode produces at every missing index and nothing elsewhere. Ingredients, all proved: Walsh-Hadamard convolution "
+       "theorem (C05_leo8/16_errLocs: the table holds log Lambda / log Lambda'), Cantor bases (C05_cantor_bases) make the "
+       "subspace polynomials' derivative 1 so the xor loop computes g+g' in the novel basis, the encoder's codeword is one "
+       "polynomial of degree < n-m, (f Lambda)'(w_e) = f(w_e) Lambda'(w_e), refinement of the literal loop schedules. Also: "
+       "C05_local / C05_linear / C05_scratch, C05_present_untouched, C05_data_only, C05_errLocs_fn / C05_reconSched_fn, "
+       "C05_reconstruct_local/chunking/linear(_all), C05_bf8_prepare / C05_bf16_prepare (word-level mip-map bit field = 'the "
+       "aligned block holds an erasure'), C05_bf8_cacheID_injective. Tie: Reconstruct* of the real "
        "encoders vs original bytes (L0) and schedule model (L1): every erasure set with |E|<=p+1 for GF8 d+p<=6 and forced "
        "GF16 d+p<=5, seeded larger ones incl. <=p/4 erasures with >=64 KiB sets (bit-field shortcut), n>=8192 GF16 "
-       "transforms, three encodings of missing; unit-level: isNeeded after prepare() = 'the aligned block holds an erasure' "
-       "for every block and level (GF8 and GF16).",
-  note=TB + " PARTIAL: correctness of the formal-derivative decoder is established per explored (d,p,E) - complete over "
-       "contents by linearity - not for every E; the pruned FFT equals the full FFT on the outputs read by correspondence.",
+       "transforms, sequences of reconstructions on one encoder (locator cache), three encodings of missing; unit-level: "
+       "isNeeded after prepare() for every block and level (GF8 and GF16).",
+  note=TB + " The theorem is about the schedule model running the FULL FFT with the model's tables; that the package's "
+       "bit-field-pruned FFT agrees on the outputs read, and that the Go code equals the model, is by correspondence "
+       "(complete table comparison in C17/C01/C04, kernels in C08).",
   design="4/C05, 10.2"),
  "C06": dict(
   technique="Lean 4 theorems: Verify-iff, single-byte flip detection from non-zero generator entries of MDS matrices",
